@@ -308,7 +308,9 @@ def parse_one_request(data: bytes, pos: int, limits: dict):
         msg["body"] = data[p:p + length]
         p += length
     msg["end"] = p
-    if upgrade:
+    if upgrade and not limits.get("upgrade_declined"):
+        # what follows depends on whether the server switches protocols; a caller that knows the
+        # offer is declined (RFC 9110 7.8: the connection simply goes on as HTTP/1.1) says so
         return msg, p, ("DONT_CARE", "upgrade_requested")
     if close:
         return msg, p, ("DONT_CARE", "after_connection_close")
